@@ -9,7 +9,15 @@ from harness.common import Prop
 
 async def _run(script, ops):
     from pyplumio.helpers.event_manager import EventManager
-    em = EventManager()
+
+    class ObservedManager(EventManager):
+        """records the subscription list a dispatch task finds when it starts (taken in the task's first step, as dispatch() does)"""
+        async def dispatch(self, name, value):
+            tid = task_ids.get(asyncio.current_task(), -1)
+            if tid in spawn_entry:
+                spawn_entry[tid][4] = [by_fn[f] for f in self._callbacks.get(name, [])]
+            return await super().dispatch(name, value)
+    em = ObservedManager() if any(op[0] == 7 for op in ops) else EventManager()
     log = []
     counter = [0]
     plain = {}       # c -> callback object
@@ -20,6 +28,18 @@ async def _run(script, ops):
     pending = {}     # tid -> future the callback is waiting on
     waiters = {}
     evbuf = {"called": [], "stored": [], "got": [], "timeout": []}
+    burst_mode = any(op[0] == 7 for op in ops)
+    seq = [0]
+    spawn_entry = {}
+
+    class Data(dict):
+        """em.data with every store observed at the moment it happens (burst histories: several dispatches finish in one settle)"""
+        def __setitem__(self, key, value):
+            super().__setitem__(key, value)
+            if burst_mode and isinstance(key, str) and key.startswith("n"):
+                seq[0] += 1
+                evbuf["stored"].append([seq[0], [2, task_ids.get(asyncio.current_task(), -1), int(key[1:]), value]])
+    em.data = Data(em.data)
 
     def make_cb(sub):
         c = sub[1]
@@ -27,7 +47,8 @@ async def _run(script, ops):
 
         async def cb(value):
             tid = task_ids.get(asyncio.current_task(), -1)
-            evbuf["called"].append([1, tid, sub, value])
+            seq[0] += 1
+            evbuf["called"].append([seq[0], [1, tid, sub, value]] if burst_mode else [1, tid, sub, value])
             for _ in range(suspends):
                 fut = asyncio.get_running_loop().create_future()
                 pending[tid] = fut
@@ -49,6 +70,17 @@ async def _run(script, ops):
             await asyncio.sleep(0)
 
     def flush():
+        if burst_mode:
+            # a dispatch task is entered in the log when it starts (right before its first own event)
+            for _, e in sorted(evbuf["called"] + evbuf["stored"], key=lambda p: p[0]):
+                if e[1] in spawn_entry:
+                    log.append(spawn_entry.pop(e[1]))
+                log.append(e)
+            for tid_ in sorted(spawn_entry):
+                log.append(spawn_entry.pop(tid_))
+            for k in evbuf:
+                evbuf[k] = []
+            return
         for e in evbuf["called"]:
             log.append(e)
         log.extend(evbuf["stored"])
@@ -90,11 +122,56 @@ async def _run(script, ops):
             task_ids[t] = tid
 
             def done(task, tid=tid, n=op[1], name=name):
+                if burst_mode:
+                    return
                 if task.cancelled() or task.exception() is not None:
                     evbuf["stored"].append(["task-failed", tid])
                 else:
                     evbuf["stored"].append([2, tid, n, em.data[name]])
             t.add_done_callback(done)
+            await settle()
+            flush()
+        elif k == 7:
+            # one synchronous block: subscriptions change and dispatch_nowait() is called, nothing yields to the loop in between;
+            # the dispatch tasks start afterwards, in call order, and see the subscriptions as they are then
+            spawned = []
+            for sub_op in op[1]:
+                kk, nm = sub_op[0], "n%d" % sub_op[1]
+                if kk == 0:
+                    c = sub_op[2]
+                    if c not in plain:
+                        plain[c] = Holder(make_cb([0, c]))
+                        by_fn[plain[c].on_value] = [0, c]
+                    em.subscribe(nm, plain[c].on_value)
+                    log.append([6, sub_op[1], [0, c]])
+                elif kk == 1:
+                    c, w = sub_op[2], counter[0]
+                    counter[0] += 1
+                    inner = make_cb([1, c, w])
+                    wrapper = em.subscribe_once(nm, inner)
+                    once_cb[w] = (inner, wrapper)
+                    by_fn[wrapper] = [1, c, w]
+                    log.append([6, sub_op[1], [1, c, w]])
+                elif kk == 2:
+                    sub = sub_op[2]
+                    fn = (plain[sub[1]].on_value if sub[1] in plain else None) if sub[0] == 0 else (once_cb.get(sub[2], (None, None))[1])
+                    found = em.unsubscribe(nm, fn) if fn is not None else False
+                    log.append([5, sub_op[1], sub, bool(found)])
+                else:
+                    before = set(em.tasks)
+                    em.dispatch_nowait(nm, sub_op[2])
+                    new = [t for t in em.tasks if t not in before]
+                    spawned.append((sub_op[1], sub_op[2], new[0] if new else None))
+            for n_, x_, t in spawned:
+                tid = counter[0]
+                counter[0] += 1
+                snap = [by_fn[f] for f in em._callbacks.get("n%d" % n_, [])]
+                spawn_entry[tid] = [0, tid, n_, x_, snap]
+                if t is None:
+                    log.append(["no-task-for-dispatch_nowait", tid])
+                else:
+                    tasks[tid] = t
+                    task_ids[t] = tid
             await settle()
             flush()
         elif k == 4:
@@ -137,7 +214,8 @@ class C13(Prop):
     rule = ("histories of 3-16 operations (subscribe / subscribe_once / unsubscribe / dispatch task / resume a suspended callback / get with "
             "and without timeout / advance the clock) on 1-2 names with callbacks suspending 0..2 times and returning None or value+d (d of either sign, "
             "dispatched values chosen so that returned values of 0 and negative values are frequent); "
-            "overlapping dispatches arise from suspended callbacks; thorough adds an exhaustive enumeration of short histories.  "
+            "overlapping dispatches arise from suspended callbacks; `burst` histories: synchronous blocks of subscription changes and "
+            "dispatch_nowait() calls with no yield in between (the tasks start afterwards, in call order).  "
             "Non-trivial = at least one callback awaited while another dispatch of the name is in flight, or a once-wrapper involved; "
             "distinct by (script, ops).")
     assumptions = ["after every operation the harness lets the loop settle: the order in which CPython's ready queue runs callbacks made ready "
@@ -185,12 +263,64 @@ class C13(Prop):
                 ops.append([6, rng.choice([1, 5, 10])])
         return script, ops
 
+    def _gen_burst(self, rng):
+        ncb = rng.randrange(1, 4)
+        script = [[rng.choice([0, 0, 0, 1]), rng.choice([[], [], [1], [10], [-1]])] for _ in range(ncb)]
+        ops, counter, subs, suspended = [], 0, {0: [], 1: []}, []
+        names = [0] if rng.random() < 0.7 else [0, 1]
+        for _ in range(rng.randrange(1, 5)):
+            block = []
+            for _ in range(rng.randrange(2, 7)):
+                r, n = rng.random(), rng.choice(names)
+                if r < 0.25:
+                    c = rng.randrange(ncb)
+                    if [0, c] in subs[n]:
+                        continue
+                    block.append([0, n, c]); subs[n].append([0, c])
+                elif r < 0.4:
+                    c = rng.randrange(ncb)
+                    block.append([1, n, c]); subs[n].append([1, c, counter]); counter += 1
+                elif r < 0.6:
+                    if not subs[n]:
+                        continue
+                    sub = rng.choice(subs[n])
+                    block.append([2, n, sub]); subs[n].remove(sub)
+                else:
+                    block.append([3, n, rng.choice([0, 1, 2, 10, 11])])
+            nspawn = len([b for b in block if b[0] == 3])
+            ops.append([7, block])
+            suspended += list(range(counter, counter + nspawn))
+            counter += nspawn
+            # once-wrappers awaited by these dispatches are gone afterwards
+            for n in names:
+                if any(b[0] == 3 and b[1] == n for b in block):
+                    subs[n] = [x for x in subs[n] if x[0] == 0]
+            for _ in range(rng.randrange(0, 3)):
+                if suspended:
+                    ops.append([4, rng.choice(suspended)])
+        return script, ops
+
+    @staticmethod
+    def _model_ops(ops):
+        """a synchronous block is equivalent to its subscription changes in order followed by its dispatches in order"""
+        out = []
+        for op in ops:
+            if op[0] == 7:
+                out += [b for b in op[1] if b[0] != 3] + [b for b in op[1] if b[0] == 3]
+            else:
+                out.append(op)
+        return out
+
     def generate(self, rng, tier):
         cases = []
         for _ in range(800 if tier == "quick" else 15000):
             script, ops = self._gen(rng, rng.randrange(3, 17))
             if ops:
                 cases.append({"kind": "random", "script": script, "ops": ops})
+        for _ in range(300 if tier == "quick" else 6000):
+            script, ops = self._gen_burst(rng)
+            if any(b[0] == 3 for op in ops if op[0] == 7 for b in op[1]):
+                cases.append({"kind": "burst", "script": script, "ops": ops})
         return cases
 
     def run_impl(self, c):
@@ -210,7 +340,7 @@ class C13(Prop):
         return out
 
     def model_many(self, cases):
-        return [self._norm(r) for r in model.call_many("erun", [[c["script"], c["ops"]] for c in cases])]
+        return [self._norm(r) for r in model.call_many("erun", [[c["script"], self._model_ops(c["ops"])] for c in cases])]
 
     def spec_many(self, cases, behaviours):
         bad = [any(isinstance(e[0], str) for e in b) for b in behaviours]
